@@ -32,6 +32,13 @@ func init() {
 }
 
 func runC19(c *Ctx, r *Rec) {
+	{
+		var all []*ast.FuncDecl
+		for _, role := range []string{"agent", "collection", "cdcn", "module"} {
+			all = append(all, c.allFuncDecls(role)...)
+		}
+		shapeLints(c, r, all)
+	}
 	// ---- D1 registries
 	nreg := 0
 	for _, role := range []string{"agent", "collection", "cdcn", "module"} {
@@ -47,6 +54,7 @@ func runC19(c *Ctx, r *Rec) {
 				registries = append(registries, v)
 			}
 		}
+		carriedWith := map[*types.Var]*types.Var{}
 		for _, reg := range registries {
 			// collect references per function
 			type ref struct {
@@ -130,6 +138,19 @@ func runC19(c *Ctx, r *Rec) {
 					}
 					if mapP == nil {
 						continue
+					}
+					// one registry, one mutex: every place that hands this registry to a helper
+					// hands the same mutex with it
+					for _, a := range call.Args {
+						if u, ok := ast.Unparen(a).(*ast.UnaryExpr); ok && u.Op == token.AND {
+							if mo, ok := identObj(info, u.X).(*types.Var); ok && isSyncType(mo.Type()) {
+								if prev, seen := carriedWith[reg]; seen && prev != mo {
+									cbad = fmt.Sprintf("the registry is handed to %s together with %s at %s, and together with %s elsewhere: two goroutines that hold different mutexes read and write the one map at the same time (concurrent map read and map write)", hd.Name.Name, mo.Name(), c.pos(call.Pos()), prev.Name())
+								} else if !seen {
+									carriedWith[reg] = mo
+								}
+							}
+						}
 					}
 					// does the helper write the map?
 					hwrites := false
